@@ -2,6 +2,133 @@
 
 package main
 
-func x64Dump(which string) {}
+import (
+	"fmt"
+	"strconv"
+	"strings"
 
-func opX64(f []string) string { return "bad-op" }
+	"wa-lang.org/wa/internal/native/abi"
+	"wa-lang.org/wa/internal/native/x64"
+	"wa-lang.org/wa/internal/zz_verif/vh"
+)
+
+// x64Dump prints the mnemonics and register names known to package x64.
+func x64Dump(which string) {
+	if which != "x64" {
+		return
+	}
+	for as := abi.As(1); as < x64.ALAST; as++ {
+		fmt.Printf("as %d %s fmt=%d\n", int(as), x64.AsString(as, ""), int(x64.AsOpFormatType(as)))
+	}
+	for r := abi.RegType(1); r < x64.REG_END; r++ {
+		fmt.Printf("reg %d %s xlen=%d\n", int(r), x64.RegString(r), x64.RegXLen(r))
+	}
+}
+
+// operand syntax:  -  |  reg:<name>  |  imm:<n>  |  mem:<byte|word|dword|qword>:<basereg|->:<offset>
+func x64Operand(s string) (*abi.X64Operand, bool) {
+	if s == "-" {
+		return nil, true
+	}
+	f := strings.Split(s, ":")
+	switch f[0] {
+	case "reg":
+		if len(f) != 2 {
+			return nil, false
+		}
+		r, ok := x64.LookupRegister(f[1])
+		if !ok {
+			return nil, false
+		}
+		return &abi.X64Operand{Kind: abi.X64Operand_Reg, Reg: r}, true
+	case "imm":
+		if len(f) != 2 {
+			return nil, false
+		}
+		n, err := strconv.ParseInt(f[1], 10, 64)
+		if err != nil {
+			return nil, false
+		}
+		return &abi.X64Operand{Kind: abi.X64Operand_Imm, Imm: n}, true
+	case "mem":
+		if len(f) != 4 {
+			return nil, false
+		}
+		pt := map[string]abi.X64PtrType{"byte": abi.X64BytePtr, "word": abi.X64WordPtr, "dword": abi.X64DWordPtr, "qword": abi.X64QWordPtr}[f[1]]
+		if pt == 0 {
+			return nil, false
+		}
+		op := &abi.X64Operand{Kind: abi.X64Operand_Mem, PtrTyp: pt}
+		if f[2] != "-" {
+			r, ok := x64.LookupRegister(f[2])
+			if !ok {
+				return nil, false
+			}
+			op.Reg = r
+		}
+		n, err := strconv.ParseInt(f[3], 10, 64)
+		if err != nil {
+			return nil, false
+		}
+		op.Offset = n
+		return op, true
+	}
+	return nil, false
+}
+
+// x64 <mnemonic> <dst> <src> <rest0>
+func opX64(f []string) string {
+	if len(f) != 5 {
+		return "bad-op"
+	}
+	as, ok := x64.LookupAs(f[1])
+	if !ok {
+		return "bad-mnemonic"
+	}
+	arg := &abi.X64Argument{}
+	var ok1, ok2, ok3 bool
+	arg.Dst, ok1 = x64Operand(f[2])
+	arg.Src, ok2 = x64Operand(f[3])
+	rest, ok3 := x64Operand(f[4])
+	if !ok1 || !ok2 || !ok3 {
+		return "bad-op"
+	}
+	if rest != nil {
+		arg.Rest = []*abi.X64Operand{rest}
+	}
+	res := "ok"
+	var code []byte
+	func() {
+		defer func() {
+			if r := recover(); r != nil {
+				res = "rej panic"
+			}
+		}()
+		c, err := x64.Encode(as, arg)
+		if err != nil {
+			res = "rej err"
+			return
+		}
+		code = c
+	}()
+	if res != "ok" {
+		return res
+	}
+	if len(code) == 0 {
+		return "rej empty"
+	}
+	// the repo's vendored decoder on the produced bytes
+	dec := "Derr"
+	func() {
+		defer func() {
+			if r := recover(); r != nil {
+				dec = "Dpanic"
+			}
+		}()
+		inst, err := x64.Decode(code, 64)
+		if err == nil && inst != nil {
+			dec = fmt.Sprintf("D len=%d %s", inst.Len, strings.ReplaceAll(inst.String(), " ", "_"))
+		}
+	}()
+	return "ok " + vh.Hex(code) + " | " + dec
+}
